@@ -32,9 +32,15 @@ func (f *File) Sync() error {
 	if err := f.File.Sync(); err != nil {
 		return err
 	}
-	new := atomic.SwapUint32(&f.new, 1)
-	if new == 0 {
-		return syncDir(f.dir)
+	if atomic.LoadUint32(&f.new) == 0 {
+		// Only consider the directory entry durable once the directory fsync has
+		// actually succeeded, otherwise a caller that retries after a failure
+		// would be told its data is durable without the file's directory entry
+		// ever having been synced.
+		if err := syncDir(f.dir); err != nil {
+			return err
+		}
+		atomic.StoreUint32(&f.new, 1)
 	}
 	return nil
 }
